@@ -279,6 +279,27 @@ func init() {
 		}
 		return fmt.Sprintf("ok %s H%s C%d", hex.EncodeToString(b), renderHeader(f.Header), f.CRC)
 	}
+	// enc2 <arch> <proto> <file>: Encode, change the protocol version of the same File (its header now
+	// holds the data size and the CRCs just written), Encode again: the second output
+	extraOps["enc2"] = func(a []string) string {
+		if len(a) != 3 {
+			return "bad-op"
+		}
+		pv, err0 := strconv.Atoi(a[1])
+		f, err := buildFile(a[2])
+		if err != nil || err0 != nil {
+			return "bad-file"
+		}
+		if _, t := safeEncode(f, archOf(a[0])); t != "ok" {
+			return t + "1 - - -"
+		}
+		f.Header.ProtocolVersion = byte(pv)
+		b, t := safeEncode(f, archOf(a[0]))
+		if t != "ok" {
+			return t + " - - -"
+		}
+		return fmt.Sprintf("ok %s H%s C%d", hex.EncodeToString(b), renderHeader(f.Header), f.CRC)
+	}
 	extraOps["encrep"] = func(a []string) string {
 		if len(a) != 3 {
 			return "bad-op"
